@@ -431,6 +431,8 @@ def _max(it, fr, a, k):
 @builtin("copy")
 def _copy(it, fr, a, k):
     v = a[0]
+    if hasattr(v, "m_copy"):
+        return v.m_copy(it)
     if isinstance(v, PyDict):
         return ops.dict_copy(v)
     if isinstance(v, PyList):
